@@ -11,7 +11,6 @@ use std::path::Path;
 
 use crate::errors::GeneratorOrIOError;
 use crate::generate::Generator;
-use crate::macros::{invariant, optionally_unsafe};
 use crate::params::ConstrainedFuzzyHashType;
 use crate::{GeneratorType, Tlsh};
 
@@ -41,9 +40,6 @@ fn hash_stream_common<R: Read, G: GeneratorType>(
         };
         if len == 0 {
             break;
-        }
-        optionally_unsafe! {
-            invariant!(len <= buffer.len());
         }
         generator.update(&buffer[0..len]);
     }
